@@ -8,7 +8,9 @@
             "<off>.<la>=" nn ;  then "ls=" ls_deconvolution over the same grid ;
             kind p: "pad=" pad_deconvolution ; kind w: "wire=" ls over 0..=1 x 3..=12
           nn  = "panic" | <residual> "/" vec ;  vec = <len> ":" i "=" bits "," ... (samples that are not +0.0)
-          NaN is printed as "nan" whatever its payload. *)
+          NaN is printed as "nan" whatever its payload.
+   case:  rel17scale <kind> <k> <want> <exact> <response> <signal>     (see below)
+   other rel17* lines: relations on the implementation alone; the model answers "holds". *)
 open Model
 open Common
 
@@ -77,6 +79,29 @@ let handle (line : string) : string =
         go 0
       in
       (if has_panic then "panic " else "ok ") ^ s
+  | [ "rel17scale"; kind; k; want; exact; resp; sg ] ->
+      (* the tie of C17_nn_greedy_scale_f64 / C17_ls_deconv_scale_f64 to the cases run: the theorems' executable
+         hypothesis (nn_safe at every grid point, ls_safe over the grid; in the form nn_safe_fast / ls_safe_fast,
+         C17_nn_safe_fast_eq / C17_ls_safe_fast_eq) is EVALUATED on the waveform, response,
+         grid and k of the case.  `exact` is the implementation's verdict carried by the case line (1 = every
+         sweep of the grid and the entry point scaled bit for bit).  Alarming: hypothesis true and not exact.
+         `want` is the generator's claim about the predicate: s = must be true (in-domain waveform, |k| <= 20),
+         u = must be false (|k| > kmax), a = either. *)
+      let (offlo, offhi, lalo, lahi) = if kind = "p" then (3, 5, 7, 12) else (0, 1, 3, 12) in
+      let resp = parse_floats resp and sg = parse_floats sg in
+      let kz = zz_of_string k in
+      let nats l = List.map nat_of_int l in
+      let safe =
+        ls_safe_fast kz sg resp (nats (irange offlo offhi)) (nats (irange lalo lahi))
+        && List.for_all
+             (fun off -> List.for_all (fun la -> nn_safe_fast kz sg resp (nat_of_int off) (nat_of_int la)) (irange lalo lahi))
+             (irange offlo offhi)
+      in
+      if (kind <> "w" && kind <> "p") || (exact <> "0" && exact <> "1") then "bad-case-line"
+      else if safe && exact = "0" then "violates-theorem: ls_safe/nn_safe hold and the implementation did not scale exactly"
+      else if want = "s" && not safe then "predicate-false on a case of the class that must satisfy it"
+      else if want = "u" && safe then "predicate-true beyond kmax"
+      else "ok"
   | tag :: _ when String.length tag >= 3 && String.sub tag 0 3 = "rel" -> "holds"
   | _ -> "unknown-case"
 
